@@ -234,6 +234,8 @@ class Loader:
 
         def m_iter(ip_, st, fr, t, args):
             v = val(st, args[0])
+            if isinstance(args[0], Opaque) and args[0].tag == "iter":
+                return args[0]      # an iterator is its own IntoIterator
             name = base_of(st, args[0])
             if isinstance(args[0], Agg) and len(args[0].fields) == 2:
                 return args[0]    # a Range is its own iterator
@@ -352,6 +354,17 @@ class Loader:
         kh = self.f.find("parse_elf_header32")
         if len(kh) == 1:
             ip.primitives[kh[0]] = m_parse_header
+        def m_rev(ip_, st, fr, t, args):
+            it = val(st, args[0])
+            return Opaque("iter", (("rev", it.data[0] if isinstance(it, Opaque) and it.tag == "iter" else None), st.count("iter")))
+
+        def m_next_any(ip_, st, fr, t, args):
+            it = val(st, args[0])
+            if isinstance(it, Opaque) and it.tag == "iter":
+                return m_next(ip_, st, fr, t, args)
+            return typed_unknown(ip_, st, fr, t, args, t["callee"]["path"])
+        M["std::iter::Iterator::rev"] = m_rev
+        ip.pattern_models.append((lambda p, f: p.endswith("as std::iter::Iterator>::next") or p == "std::iter::Iterator::next", m_next_any))
         M["nom::multi::count"] = m_nom_count
         M["nom::Parser::parse"] = m_nom_parse
         ip.pattern_models.append((lambda p, f: (p.startswith("std::iter::Iterator::") or p.startswith("std::vec::Vec::<T, A>::")) and p.split("::")[-1] in LOSSY_ADAPTORS, m_lossy))
